@@ -140,18 +140,7 @@ fn run_stage_isolated(id: &str, stage: &Stage, tier: Tier, seed: u64) -> Result<
         std::process::exit(1);
     }
     // the child died: which of the cases it was running does that alone?
-    let mut tapes: Vec<Vec<u16>> = vec![];
-    if let Ok(rd) = std::fs::read_dir(&dir) {
-        let mut files: Vec<_> = rd.filter_map(|e| e.ok()).map(|e| e.path()).collect();
-        files.sort();
-        for f in files {
-            if let Ok(v) = serde_json::from_str::<serde_json::Value>(&std::fs::read_to_string(&f).unwrap_or_default()) {
-                if let Ok(t) = serde_json::from_value::<Vec<u16>>(v["tape"].clone()) {
-                    tapes.push(t);
-                }
-            }
-        }
-    }
+    let tapes: Vec<Vec<u16>> = read_current_tapes(&dir);
     let _ = std::fs::remove_dir_all(&dir);
     for tape in tapes {
         if let Err(how) = eval_in_child(&bin, id, name, &tape) {
@@ -327,6 +316,26 @@ fn cmd_check(id: &str, tier: Tier) -> i32 {
             continue;
         }
         let s = match stage.profile {
+            // release stages run in a child process as well (unless VERIF_INPROC is set): an
+            // abort of the tested code (a panic while unwinding, a stack overflow, a wild
+            // pointer) is then attributed to a case and reported instead of killing the check.
+            // C06 compares observations kept in this process, C17 (and the asan stages that
+            // share its driver) talk to their own sanitizer-instrumented child.
+            Profile::Release
+                if !cfg!(debug_assertions)
+                    && std::env::var_os("VERIF_INPROC").is_none()
+                    && id != "C06"
+                    && stage.prop.id() != "C17"
+                    && stage.prop.stage() != "asan" =>
+            {
+                match run_stage_isolated(id, stage, tier, seed) {
+                    Ok(s) => s,
+                    Err(e) => {
+                        println!("INCONCLUSIVE property={id} {e}");
+                        return 2;
+                    }
+                }
+            }
             Profile::Release if !cfg!(debug_assertions) => run_stage_here(stage, tier, seed),
             Profile::Debug if cfg!(debug_assertions) => run_stage_here(stage, tier, seed),
             Profile::Debug => match run_stage_child(id, stage, tier, seed) {
